@@ -137,6 +137,10 @@ def parse_input_const_value_node(
         return generate_constant(None)
 
     if isinstance(node, EnumValueNode):
+        if nested_object:
+            # inside an object literal field_type is the enclosing input type,
+            # model_validate turns the plain value into the enum member
+            return generate_constant(node.value)
         value_name = node.value + "_" if iskeyword(node.value) else node.value
         return generate_name(f"{field_type}.{value_name}")
 
@@ -183,24 +187,24 @@ def parse_input_const_value_node(
             ),
         )
         if not nested_object:
+            model_validate_call = generate_call(
+                func=generate_attribute(
+                    value=generate_subscript(
+                        value=generate_call(func=generate_name("globals")),
+                        slice_=generate_constant(field_type),
+                    ),
+                    attr=MODEL_VALIDATE_METHOD,
+                ),
+                args=[dict_],
+            )
+            if nested_list:
+                # item of a list default: the list itself is the default_factory
+                return model_validate_call
             return generate_call(
                 func=generate_name(FIELD_CLASS),
                 keywords=[
                     generate_keyword(
-                        value=generate_lambda(
-                            body=generate_call(
-                                func=generate_attribute(
-                                    value=generate_subscript(
-                                        value=generate_call(
-                                            func=generate_name("globals")
-                                        ),
-                                        slice_=generate_constant(field_type),
-                                    ),
-                                    attr=MODEL_VALIDATE_METHOD,
-                                ),
-                                args=[dict_],
-                            )
-                        ),
+                        value=generate_lambda(body=model_validate_call),
                         arg="default_factory",
                     )
                 ],
